@@ -307,6 +307,70 @@ func c05TickLines(tr *Trace, r *Rng, n int) {
 	}
 }
 
+// edge prices for the curve functions: below MinPoolPrice / above MaxPoolPrice (the clamps), one unit of the last decimal
+// beside the pool price (dx not positive although price < Price(): the pool price is a rounded quotient)
+func c05EdgePrice(tr *Trace, r *Rng, price sdkmath.LegacyDec, poolPrice func() sdkmath.LegacyDec) sdkmath.LegacyDec {
+	switch r.Intn(40) {
+	case 0:
+		tr.Count("edge-price:below-min-pool-price")
+		return sdkmath.LegacyNewDecWithPrec(int64(1+r.Intn(9)), 16)
+	case 1:
+		tr.Count("edge-price:above-max-pool-price")
+		return amm.MaxPoolPrice.MulInt64(int64(2 + r.Intn(5)))
+	case 2, 3, 4:
+		var pp sdkmath.LegacyDec
+		if panicked, _ := try(func() { pp = poolPrice() }); panicked {
+			return price
+		}
+		tr.Count("edge-price:beside-pool-price")
+		return pp.Add(sdkmath.LegacyNewDecWithPrec(int64(r.Intn(5)-2), 18))
+	}
+	return price
+}
+
+// directed: reserves / prices at which the amount exceeds MaxCoinAmount (the cap), basic and ranged
+func c05PoolCapLines(tr *Trace) {
+	rx, ry := c05Pow10(35), c05Pow10(20)
+	bp := amm.NewBasicPool(rx, ry, sdkmath.OneInt())
+	minP, maxP := c05Dec("100000000000000"), c05Dec("10000000000000000")
+	for _, ps := range []string{"0.00000000000001", "0.0000000000000005", "1000000000000000", "999999999999999"} {
+		price := c05Dec(ps)
+		for _, fn := range []string{"bo", "bt", "su", "st"} {
+			out, rout := "panic", "panic"
+			try(func() {
+				switch fn {
+				case "bo":
+					out = bp.BuyAmountOver(price, true).String()
+				case "bt":
+					out = bp.BuyAmountTo(price).String()
+				case "su":
+					out = bp.SellAmountUnder(price, true).String()
+				case "st":
+					out = bp.SellAmountTo(price).String()
+				}
+			})
+			tr.Line("amm.bp", fn, rx.String(), ry.String(), c05Raw(price), out)
+			try(func() {
+				rp := amm.NewRangedPool(rx, ry, sdkmath.OneInt(), minP, maxP)
+				switch fn {
+				case "bo":
+					rout = rp.BuyAmountOver(price, true).String()
+				case "bt":
+					rout = rp.BuyAmountTo(price).String()
+				case "su":
+					rout = rp.SellAmountUnder(price, true).String()
+				case "st":
+					rout = rp.SellAmountTo(price).String()
+				}
+			})
+			tr.Line("amm.rp", fn, rx.String(), ry.String(), c05Raw(minP), c05Raw(maxP), c05Raw(price), rout)
+			if out == amm.MaxCoinAmount.String() || rout == amm.MaxCoinAmount.String() {
+				tr.Count("pool:amount-capped")
+			}
+		}
+	}
+}
+
 // basic pools: the curve functions and the order generation of PoolBuyOrders / PoolSellOrders on real BasicPools
 func c05PoolLines(tr *Trace, r *Rng, n int) {
 	list := func(os []amm.Order) string {
@@ -354,6 +418,7 @@ func c05PoolLines(tr *Trace, r *Rng, n int) {
 			if r.Chance(10) {
 				price = price.Add(sdkmath.LegacyNewDecWithPrec(int64(r.Intn(3)-1), 18))
 			}
+			price = c05EdgePrice(tr, r, price, func() sdkmath.LegacyDec { return pool.Price() })
 			for _, fn := range []string{"price", "bo", "su", "bt", "st"} {
 				out := "panic"
 				try(func() {
@@ -750,6 +815,11 @@ func (g *c05Gen) poolBook(tr *Trace) ([]*c05Order, sdkmath.LegacyDec) {
 			}
 			pool = rp
 			tr.Count("pool:ranged")
+			// the orders this ranged pool contributes to the book are checked against the model too
+			if r.Chance(scale(25, 30)) {
+				prx, pry := rp.Balances()
+				c05RangedPoolLine(tr, prx, pry, minP, maxP, lowest, highest, g.prec)
+			}
 		}
 		orderer := liqtypes.NewPoolOrderer(pool, uint64(pi+1), nil, "base", "quote")
 		var pos []amm.Order
@@ -848,6 +918,26 @@ func TestC05(t *testing.T) {
 		c05Begin(tr, os)
 		c05OpSingle(tr, os, p1)
 	}
+	// ---- corpus: the dust clause as written (dust < #fills) fails on a D2 book — quote_dust_counterexample -------------
+	// sells 1000 @ 0.1 and 5 x 10 @ 0.1 (one batch), buy 1045 @ 0.2, last price 0.09: quoteCoinDiff 5 after 2 fills (45 base dropped)
+	{
+		p1, p2, lp := c05Dec("0.1"), c05Dec("0.2"), c05Dec("0.09")
+		os := []*c05Order{c05New(0, 2, 0, 0, amm.Sell, p1, sdkmath.NewInt(1000), sdkmath.NewInt(1000))}
+		for i := 1; i <= 5; i++ {
+			os = append(os, c05New(i, 2, 0, 0, amm.Sell, p1, sdkmath.NewInt(10), sdkmath.NewInt(10)))
+		}
+		os = append(os, c05New(6, 2, 0, 0, amm.Buy, p2, sdkmath.NewInt(1045), amm.OfferCoinAmount(amm.Buy, p2, sdkmath.NewInt(1045))))
+		c05Begin(tr, os)
+		c05OpMatch(tr, os, lp)
+		// the same through MatchAtSinglePrice at 0.1 with user orders of one batch
+		os = []*c05Order{c05New(0, 0, 1, 2, amm.Sell, p1, sdkmath.NewInt(1000), sdkmath.NewInt(1000))}
+		for i := 1; i <= 5; i++ {
+			os = append(os, c05New(i, 0, uint64(i+1), 2, amm.Sell, p1, sdkmath.NewInt(10), sdkmath.NewInt(10)))
+		}
+		os = append(os, c05New(6, 0, 7, 2, amm.Buy, p2, sdkmath.NewInt(1045), amm.OfferCoinAmount(amm.Buy, p2, sdkmath.NewInt(1045))))
+		c05Begin(tr, os)
+		c05OpSingle(tr, os, p1)
+	}
 	// a few books of the repository's own tests (match_test.go) as anchors
 	{
 		one := c05Dec("1.0")
@@ -860,10 +950,12 @@ func TestC05(t *testing.T) {
 	}
 
 	c05TickLines(tr, rng, scale(3000, 60000))
-	c05PoolLines(tr, rng, scale(1500, 30000))
+	c05PoolCapLines(tr)
+	c05PoolLines(tr, rng, scale(1200, 10000))
+	c05RangedLines(tr, rng, scale(300, 5000))
 
 	g := &c05Gen{rng: rng}
-	books := scale(40000, 600000)
+	books := scale(36000, 400000)
 	for b := 0; b < books; b++ {
 		var os []*c05Order
 		if rng.Chance(6) {
@@ -872,6 +964,11 @@ func TestC05(t *testing.T) {
 			tr.Count("case:pool-book")
 			c05Begin(tr, os)
 			c05OpMatch(tr, os, lp)
+			continue
+		}
+		if rng.Chance(3) {
+			tr.Count("case:first-batch-with-pools")
+			g.firstPoolsCase(tr)
 			continue
 		}
 		if rng.Chance(12) {
